@@ -361,6 +361,14 @@ def run_levels(modname, mod, tier, seed, pool, results):
         base += len(args) + 1
         frontier = nxt
         level += 1
+        cap = init.get("max_states", 40000)
+        if len(seen) > cap and frontier and level < init["depth"]:
+            # a state space that keeps growing (e.g. the fingerprint contains a value that changes on every call)
+            # must not turn the check into an hours-long run: stop, and say so in the evidence
+            results.append({"idx": base, "evals": 0, "states": 0, "trans": 0, "nontriv": 0, "nviol": 0, "counters": {},
+                            "viol": [], "samples": [], "outcomes": set(), "keycount": {}, "state_set": set(),
+                            "caps": ["history search stopped after level %d: %d states exceed the cap of %d" % (level, len(seen), cap)]})
+            break
     return len(seen), level
 
 
